@@ -17,7 +17,9 @@ CONSTANTS Projects, Keys, Vals, Handles, DocVals, FileNames, FVals,
           MaxDepth,
           InitJobs,     \* jobs (of project "P") that exist, valid, in the initial state
           InitCache,    \* subset of {TRUE, FALSE}: initial states with / without an exact persistent cache file
-          IdOrder       \* all state points as a sequence in the order of their real ids (= listing order under the harness)
+          IdOrder,      \* all state points as a sequence in the order of their real ids (= listing order under the harness)
+          FixedD3,      \* BOOLEAN, probed on the tree under test: DEVIATION D3 (below) has been repaired
+          FixedD4       \* BOOLEAN, probed: init() through a handle that cannot learn its state point creates nothing (D4 repaired)
 
 Absent  == "-"
 SP      == [Keys -> Vals \cup {Absent}]
@@ -119,11 +121,14 @@ OpenByIter(x, p, i) ==            \* a handle produced by iterating the project 
 ---------------------------------------------------------------------------
 (* LoadR: evaluating the `job.statepoint` property - creates the state point dict lazily; a handle
    opened by id on a cache miss has to load and validate the file first *)
+(* the lock table only matters while D3 exists: once repaired it is not tracked (it would merely multiply the states) *)
+AddLock(L, e) == IF FixedD3 THEN L ELSE L \cup {e}
+Remap(L, p, old, new) == IF FixedD3 THEN L ELSE (L \ {<<p, old>>}) \cup {<<p, new>>}
 LockOfS(S, x) == <<S.h[x].proj, S.h[x].id>>
 LoadR(S, x) ==
   LET j == S.h[x]  p == j.proj  i == j.id IN
   IF j.spInit THEN Out(S, "ok")
-  ELSE LET S1 == [S EXCEPT !.locks = @ \cup {<<p, i>>}] IN        \* a lock entry is created together with a dict
+  ELSE LET S1 == [S EXCEPT !.locks = AddLock(@, <<p, i>>)] IN       \* a lock entry is created together with a dict
        IF j.spMem.known THEN Out([S1 EXCEPT !.h[x].spInit = TRUE], "ok")
        ELSE IF ValidS(S, p, i)
        THEN Out([S1 EXCEPT !.h[x].spInit = TRUE, !.h[x].spMem = Known(i), !.mem[p] = PutF(@, i, i)], "ok")
@@ -133,7 +138,9 @@ LoadR(S, x) ==
 InitR(S, x, force) ==
   LET j == S.h[x]  p == j.proj  i == j.id  rec == RecS(S, p, i)  ld == LoadR(S, x) IN
   IF ld.res # "ok"
-  THEN \* opened by id, nothing known to write: the directory is created, then the error propagates
+  THEN \* opened by id, nothing known to write.  DEVIATION D4: the directory was created before the error propagated
+       \* (leaving a job directory without state point file when the job had been removed meanwhile); repaired: fails first
+       IF FixedD4 THEN Out(ld.s, "JobsCorruptedError") ELSE
        Out([ld.s EXCEPT !.ws[p] = IF rec.ex THEN @ ELSE PutF(@, i, Dir("missing", AnySp, NoDoc, NoFiles)),
                         !.h[x].dirKnown = TRUE,
                         !.taint = IF rec.ex THEN @ ELSE @ \cup {"stale-id-handle-mkdir"}], "JobsCorruptedError")
@@ -179,7 +186,7 @@ RekeyR(S, x, new, okRes, registerNew) ==
   ELSE IF ~HasFile(rec)
   THEN \* no state point file to move: only the handles change
        Out([S EXCEPT !.h = SetGroup(@, x, LAMBDA g : [g EXCEPT !.spMem = Known(new), !.id = new, !.docOpen = FALSE]),
-                     !.mem[p] = regd(@), !.locks = (@ \ {<<p, old>>}) \cup {<<p, new>>}], okRes)
+                     !.mem[p] = regd(@), !.locks = Remap(@, p, old, new)], okRes)
   ELSE IF dst.ex /\ ~EmptyDir(dst)
   THEN \* destination exists: file and directory rolled back, in-memory value reloaded from the restored file
        IF rec.spk = "garbage"
@@ -193,9 +200,13 @@ RekeyR(S, x, new, okRes, registerNew) ==
                                                                 !.dirKnown = IF y = glast[j.grp] THEN TRUE ELSE @]
                                               ELSE @[y]],
                      !.mem[p] = PutF(@, new, new),
-                     !.locks = (@ \ {<<p, old>>}) \cup {<<p, new>>}], okRes)
+                     !.locks = Remap(@, p, old, new)], okRes)
 
-LockMissingS(S, x) == S.h[x].spInit /\ LockOfS(S, x) \notin S.locks       \* DEVIATION D3
+(* DEVIATION D3: the dependency keeps one thread lock per FILE NAME in a class-level table and moves the entry when a dict
+   changes its file name - away from under the dicts of independently opened handles of the same job, whose next edit then
+   fails with KeyError (reset()/clear() only after having changed their in-memory value: "D3-leak").  Repaired in signac
+   (the re-keying dict leaves a lock registered under the old name); FixedD3 is probed on the tree under test. *)
+LockMissingS(S, x) == ~FixedD3 /\ S.h[x].spInit /\ LockOfS(S, x) \notin S.locks
 
 (* in-place edits of the state point mapping: every one of them is load (lazy), lock (D3), mutate, _save *)
 SpEdit(op, args, x, newOf(_), failsIf(_)) ==
@@ -231,7 +242,7 @@ SpClear(x) ==                    \* job.sp.clear(): like reset() it empties the 
    updates the in-memory value BEFORE it takes the lock. *)
 AssignR(S, x, new) ==
   LET j == S.h[x]  p == j.proj
-      S1 == IF j.spInit THEN S ELSE [S EXCEPT !.h[x].spInit = TRUE, !.locks = @ \cup {<<p, j.id>>}] IN
+      S1 == IF j.spInit THEN S ELSE [S EXCEPT !.h[x].spInit = TRUE, !.locks = AddLock(@, <<p, j.id>>)] IN
   IF LockMissingS(S, x)
   THEN Out([S1 EXCEPT !.h = SetGroup(@, x, LAMBDA g : [g EXCEPT !.spMem = Known(new)]),
                       !.taint = IF new = j.id THEN @ ELSE @ \cup {"D3-leak"}], "KeyError")                    \* D3
@@ -398,7 +409,7 @@ RepairOne(S, p, i) ==            \* -> [s, bad]
                 wasValid == ValidS(S2, p, sp) IN
             [s |-> [S2 EXCEPT !.ws[p] = PutF(@, sp, Dir("ok", sp, r2.doc, r2.files)),
                               !.mem[p] = IF wasValid THEN @ ELSE PutF(@, sp, sp),
-                              !.locks = @ \cup {<<p, sp>>}],
+                              !.locks = AddLock(@, <<p, sp>>)],
              bad |-> FALSE]
 RECURSIVE RepairSeq(_, _, _, _)
 RepairSeq(S, p, ids, bad) == IF ids = <<>> THEN [s |-> S, bad |-> bad]
